@@ -125,6 +125,24 @@ type Selector struct {
 	Val  string `json:"v"` // unquoted
 }
 
+// a series announced on some days (rows of time_series): what the labels request can find
+type LSeries struct {
+	Fp     uint64      `json:"fp"`
+	Labels [][2]string `json:"labels"`
+	Days   []int64     `json:"days"`
+}
+
+// one Select of a multi-Select run on ONE querier object
+type Call struct {
+	Hints     *Hints      `json:"hints"`
+	Ms        []Matcher   `json:"ms"`
+	Rows      []Row       `json:"rows"`
+	SQL       string      `json:"sql,omitempty"`
+	SQLLabels []string    `json:"sql_labels,omitempty"`
+	Obs       []OutSeries `json:"obs,omitempty"`
+	Err       string      `json:"err,omitempty"`
+}
+
 type Case struct {
 	ID    int      `json:"id"`
 	Kind  string   `json:"kind"`
@@ -140,6 +158,8 @@ type Case struct {
 	Fetch   []LabelsRow `json:"fetch,omitempty"`
 	DB      *DB         `json:"db,omitempty"`
 	PDB     []PSeries   `json:"pdb,omitempty"`
+	LDB     []LSeries   `json:"ldb,omitempty"`
+	Calls   []Call      `json:"calls,omitempty"`
 	Oracle  []ReEntry   `json:"oracle,omitempty"`
 	Sorted  bool        `json:"sort_series,omitempty"`
 	// observations
@@ -764,6 +784,150 @@ func runQuerier(c *Case) {
 	// whether MapResult was installed is visible only through its effect; the decision is re-derived by the model
 }
 
+// ---------------------------------------------------------------- kind "multi"
+
+// several Selects on ONE querier, as the PromQL engine issues them for a query with several selectors / offsets:
+// windows on the same and on other UTC days, series announced only on some days
+func genMulti(r *rand.Rand, c *Case) {
+	day := int64(19700 + r.Intn(30))
+	c.Ctx = &Ctx{Type: 2, Cluster: r.Intn(5) == 0}
+	n := 2 + r.Intn(4)
+	seen := map[string]bool{}
+	for i := 0; i < n; i++ {
+		l := genLabels(r)
+		if seen[labelsKey(l)] {
+			continue
+		}
+		seen[labelsKey(l)] = true
+		s := LSeries{Fp: r.Uint64(), Labels: l}
+		switch r.Intn(4) {
+		case 0:
+			s.Days = []int64{day} // born today
+		case 1:
+			s.Days = []int64{day - 1} // ended yesterday
+		case 2:
+			s.Days = []int64{day - 2, day - 1}
+		default:
+			s.Days = []int64{day - 2, day - 1, day}
+		}
+		c.LDB = append(c.LDB, s)
+	}
+	sort.Slice(c.LDB, func(i, j int) bool { return c.LDB[i].Fp < c.LDB[j].Fp })
+	k := 2 + r.Intn(3)
+	class := "multi-same-day"
+	sameDay := r.Intn(3) == 0
+	ms, _ := genMatchers(r)
+	for j := 0; j < k; j++ {
+		d := day
+		if j > 0 && !sameDay {
+			switch r.Intn(3) {
+			case 0:
+				d = day - 1
+				class = "multi-other-days"
+			case 1:
+				d = day - 2
+				class = "multi-other-days"
+			}
+		}
+		if j == 1 && !sameDay && r.Intn(2) == 0 {
+			d = day - 1
+			class = "multi-other-days"
+		}
+		start := d*86400000 + int64(3600+r.Intn(72000))*1000
+		h := &Hints{Start: start, End: start + int64(60+r.Intn(3000))*1000, Func: []string{"", "sum", "rate"}[r.Intn(3)]}
+		if h.Func == "rate" {
+			h.Range = 300000
+		}
+		call := Call{Hints: h, Ms: ms}
+		if r.Intn(3) == 0 {
+			call.Ms, _ = genMatchers(r)
+		}
+		for _, s := range c.LDB { // rows of the series announced on the day of this window
+			on := false
+			for _, sd := range s.Days {
+				on = on || sd == d
+			}
+			if !on || r.Intn(5) == 0 {
+				continue
+			}
+			ts := h.Start
+			for q := 1 + r.Intn(4); q > 0; q-- {
+				ts += int64(1+r.Intn(20)) * 1000
+				call.Rows = append(call.Rows, Row{Fp: s.Fp, Val: int64(r.Intn(9)), Ts: ts})
+			}
+		}
+		c.Calls = append(c.Calls, call)
+	}
+	c.Class = []string{class}
+}
+
+func runMulti(c *Case) {
+	c.Err, c.ErrText = "", ""
+	c.Tables = tablesOf(mkPlannerCtx(c.Ctx))
+	sc := &script{ldb: []labelDay{}}
+	for _, s := range c.LDB {
+		for _, d := range s.Days {
+			sc.ldb = append(sc.ldb, labelDay{s.Fp, d, s.Labels})
+		}
+	}
+	reg := newRegistry(c.Ctx.Cluster)
+	q := &service.CLokiQueriable{ServiceData: model.ServiceData{Session: reg}, Ctx: context.Background()}
+	qr, err := q.Querier(context.Background(), 0, 0) // ONE querier object for every call
+	if err != nil {
+		c.Err, c.ErrText = "querier", err.Error()
+		return
+	}
+	for j := range c.Calls {
+		call := &c.Calls[j]
+		call.SQL, call.SQLLabels, call.Obs, call.Err = "", nil, nil, ""
+		pms, err := promMatchers(call.Ms)
+		if err != nil {
+			call.Err = "matcher: " + err.Error()
+			continue
+		}
+		sc.mainRows, sc.mainSQL, sc.labelsSQL, sc.otherSQL = nil, nil, nil, nil
+		for _, r := range call.Rows {
+			sc.mainRows = append(sc.mainRows, []driver.Value{r.Fp, float64(r.Val), r.Ts})
+		}
+		curMtx.Lock()
+		cur = sc
+		curMtx.Unlock()
+		var ss storage.SeriesSet
+		p := hx.Catch(func() { ss = qr.Select(false, storageHints(call.Hints), pms...) })
+		curMtx.Lock()
+		cur = nil
+		curMtx.Unlock()
+		if len(sc.mainSQL) > 0 {
+			call.SQL = sc.mainSQL[0]
+		}
+		call.SQLLabels = append([]string{}, sc.labelsSQL...)
+		if p != "" {
+			call.Err = "panic: " + p
+			continue
+		}
+		if ss.Err() != nil {
+			call.Err = "select: " + ss.Err().Error()
+			continue
+		}
+		call.Obs = []OutSeries{}
+		p = hx.Catch(func() {
+			for _, s := range ss.(*model.SeriesSet).Series {
+				o := OutSeries{Fp: s.Fp, Labels: [][2]string{}, Samples: [][2]int64{}}
+				for _, l := range s.Labels() {
+					o.Labels = append(o.Labels, [2]string{l.Name, l.Value})
+				}
+				for _, sm := range s.Samples {
+					o.Samples = append(o.Samples, [2]int64{sm.TimestampMs, int64(sm.Value)})
+				}
+				call.Obs = append(call.Obs, o)
+			}
+		})
+		if p != "" {
+			call.Err = "panic: " + p
+		}
+	}
+}
+
 // ---------------------------------------------------------------- main
 
 func runCase(c *Case) {
@@ -774,6 +938,8 @@ func runCase(c *Case) {
 		runProf(c)
 	case "querier":
 		runQuerier(c)
+	case "multi":
+		runMulti(c)
 	}
 }
 
@@ -805,7 +971,10 @@ func main() {
 	r := hx.Rand(f.Seed)
 	for i := 0; i < f.N; i++ {
 		c := Case{ID: i}
-		switch k := r.Intn(10); {
+		switch k := r.Intn(11); {
+		case k == 10:
+			c.Kind = "multi"
+			genMulti(r, &c)
 		case k < 4:
 			c.Kind = "sql"
 			c.Sub = []string{"raw", "down"}[r.Intn(2)]
